@@ -117,12 +117,13 @@ func Start(t *testing.T, prop string) *Check {
 		secs = v
 	}
 	c.dl = c.start.Add(time.Duration(secs * float64(time.Second)))
-	if b, err := os.ReadFile(filepath.Join(c.Root, "known_findings.json")); err == nil {
+	// known findings: /verif/known_findings/<ID>.json (committed, never written at run time)
+	if b, err := os.ReadFile(filepath.Join(c.Root, "known_findings", prop+".json")); err == nil {
 		var f struct {
 			Findings []knownEntry `json:"findings"`
 		}
 		if err := json.Unmarshal(b, &f); err != nil {
-			c.Internal("known_findings.json unreadable: " + err.Error())
+			c.Internal("known_findings/" + prop + ".json unreadable: " + err.Error())
 		}
 		for _, e := range f.Findings {
 			if e.Property == prop && e.Status == "known" {
@@ -243,6 +244,9 @@ func (c *Check) Record(part string, r Result, replay func() any) {
 		desc = replay()
 	}
 	dir := filepath.Join(c.Root, "replays", c.Prop)
+	if os.Getenv("VERIF_NO_EVIDENCE") != "" {
+		dir = filepath.Join(c.Root, ".build", "mutant-replays", c.Prop)
+	}
 	os.MkdirAll(dir, 0o755)
 	name := unsafeChars.ReplaceAllString(r.Sig, "_")
 	if len(name) > 120 {
@@ -346,7 +350,7 @@ func (c *Check) Finish() {
 		ev["internal_errors"] = c.internalErr
 	}
 	b, _ := json.MarshalIndent(ev, "", " ")
-	if c.ReplayFile == "" {
+	if c.ReplayFile == "" && os.Getenv("VERIF_NO_EVIDENCE") == "" {
 		os.MkdirAll(filepath.Join(c.Root, "evidence"), 0o755)
 		if err := os.WriteFile(filepath.Join(c.Root, "evidence", c.Prop+".json"), b, 0o644); err != nil {
 			c.internalErr = append(c.internalErr, "cannot write evidence: "+err.Error())
